@@ -1207,30 +1207,41 @@ class DomainMapping(CanBehaveLikeAVariable[T], ABC):
 
         self._eval_parent_ = parent
 
+        # a node object may be used more than once (also by other queries): whether its value is a truth value depends
+        # on who evaluates it here, not on who evaluated it last
+        evaluated_as_condition = isinstance(parent, LogicalOperator) or (
+            isinstance(parent, QueryObjectDescriptor) and parent._child_ is self
+        )
+
         if self._id_ in sources:
+            self._is_false_ = evaluated_as_condition and not bool(sources[self._id_])
             yield OperationResult(sources, self._is_false_, self)
             return
 
         yield from (
             self._build_operation_result_and_update_truth_value_(
-                child_result, mapped_value
+                child_result, mapped_value, evaluated_as_condition
             )
             for child_result in self._child_._evaluate__(sources, parent=self)
             for mapped_value in self._apply_mapping_(child_result[self._child_._id_])
         )
 
     def _build_operation_result_and_update_truth_value_(
-        self, child_result: OperationResult, current_value: Any
+        self,
+        child_result: OperationResult,
+        current_value: Any,
+        evaluated_as_condition: bool,
     ) -> OperationResult:
         """
         Set the current truth value of the operation result, and build the operation result to be yielded.
 
         :param child_result: The current result from the child operation.
         :param current_value: The current value of this operation that is derived from the child result.
+        :param evaluated_as_condition: Whether the value is a truth value here (below a logical operator or as the
+         condition of a query) or just a value (an operand of a comparison, a call, another mapping).
         :return: The operation result.
         """
-        if isinstance(self._parent_, LogicalOperator) or self is self._conditions_root_:
-            self._is_false_ = not bool(current_value)
+        self._is_false_ = evaluated_as_condition and not bool(current_value)
         return OperationResult(
             {**child_result.bindings, self._id_: current_value},
             self._is_false_,
